@@ -192,8 +192,14 @@ where
     where
         A: BDDKeyInfos,
     {
-        self.circuit_bootstrapping_key_encrypt_sk_tmp_bytes(&infos.cbt_infos())
-            .max(self.glwe_to_lwe_key_encrypt_sk_tmp_bytes(&infos.ks_lwe_infos()))
+        let lvl_0: usize = self
+            .circuit_bootstrapping_key_encrypt_sk_tmp_bytes(&infos.cbt_infos())
+            .max(self.glwe_to_lwe_key_encrypt_sk_tmp_bytes(&infos.ks_lwe_infos()));
+        // The optional GLWE -> GLWE switching key is encrypted on the same scratch.
+        match infos.ks_glwe_infos() {
+            Some(ks_glwe_infos) => lvl_0.max(self.glwe_switching_key_encrypt_sk_tmp_bytes(&ks_glwe_infos)),
+            None => lvl_0,
+        }
     }
 
     #[allow(clippy::too_many_arguments)]
